@@ -2,6 +2,7 @@ import Pm.Dev2Login
 import Pm.ReplyProof
 import Pm.Daemon
 import Pm.Dev2Clip
+import Pm.ToBuf
 /-! Helper lemmas for C10 (second part): `LoginHead` through `_handle_ready_device`, the ping append, the whole of
     `dev_post_poll`, the client enqueue; reachability; FIFO completions; "only the head speaks"; the device output
     buffer.  The model definitions are not touched: `handleReady` and `postPoll` are cut into pieces here and the
@@ -862,14 +863,16 @@ theorem pickResult_noSent (s : Bytes) (l : List (PResult × Nat)) (o : Oracle) (
       · exact h x hx
       · exact h2 x hx
 
-/-- what a statement does to the output buffer: it appends what it reports as sent, nothing else -/
+/-- what a statement does to the output buffer: it queues what it reports as sent behind what is queued, nothing else.
+    `dev->to` holds 65536 bytes (`clipTo`: the oldest queued bytes give way beyond that); the buffer the statement finds is
+    within the capacity (`C09_device_out_capacity`: every reachable one is) -/
 structure BufFrame (d : Dev) (r : StepR) : Prop where
-  toBuf : r.dev.toBuf = d.toBuf ++ sentBytes r.out
+  toBuf : d.toBuf.length ≤ 65536 → r.dev.toBuf = clipTo (d.toBuf ++ sentBytes r.out)
   retry : r.dev.retryCount = d.retryCount
 
 theorem BufFrame.of_noSent {d : Dev} {r : StepR} (h1 : r.dev.toBuf = d.toBuf) (h2 : r.dev.retryCount = d.retryCount)
     (h3 : ∀ x ∈ r.out, isSent x = false) : BufFrame d r :=
-  ⟨by rw [h1, sentBytes, sentsOf_noSent _ h3]; simp, h2⟩
+  ⟨fun hc => by rw [h1, sentBytes, sentsOf_noSent _ h3, List.flatten_nil, List.append_nil, clipTo_of_le _ hc], h2⟩
 
 theorem stmtExpect_buf (d a o pat) : BufFrame d (stmtExpect d a o pat) := by
   have h1 := askRx_noSent
@@ -906,13 +909,15 @@ theorem stmtIf_buf (d a o e b n) : BufFrame d (stmtIf d a o e b n) := by
   · unfold stmtIf; grind
   · unfold stmtIf; grind [isSent]
 
-theorem sentBytes_sent_tele (s : Bytes) (a : Action) :
-    sentBytes ([Out.sent s] ++ if a.telemetry = true then teleMem a.clientId "send(dev): '" s else []) = s := by
+theorem sentBytes_sent_tele (s : Bytes) (a : Action) (ov : Bool) :
+    sentBytes ([Out.sent s] ++ if ov = true then [] else if a.telemetry = true then teleMem a.clientId "send(dev): '" s else []) = s := by
   have h1 := teleMem_noSent a.clientId "send(dev): '" s
-  have h2 : sentBytes (if a.telemetry = true then teleMem a.clientId "send(dev): '" s else []) = [] := by
+  have h2 : sentBytes (if ov = true then [] else if a.telemetry = true then teleMem a.clientId "send(dev): '" s else []) = [] := by
     split
-    · simp [sentBytes, h1]
     · rfl
+    · split
+      · simp [sentBytes, h1]
+      · rfl
   rw [sentBytes_append, h2]; simp [sentBytes, sentsOf]
 
 theorem stmtSend_buf (d a o e fmt) : BufFrame d (stmtSend d a o e fmt) := by
@@ -920,19 +925,19 @@ theorem stmtSend_buf (d a o e fmt) : BufFrame d (stmtSend d a o e fmt) := by
   split
   · dsimp only
     split
-    · exact ⟨by simp [sentBytes, sentsOf], rfl⟩
+    · exact ⟨fun hc => by simp [sentBytes, sentsOf, clipTo_of_le _ hc], rfl⟩
     · split
-      · exact ⟨by rw [sentBytes_sent_tele], rfl⟩
-      · exact ⟨by rw [sentBytes_sent_tele], rfl⟩
+      · exact ⟨fun _ => by rw [sentBytes_sent_tele], rfl⟩
+      · exact ⟨fun _ => by rw [sentBytes_sent_tele], rfl⟩
   · split
-    · exact ⟨by simp, rfl⟩
-    · exact ⟨by simp, rfl⟩
+    · exact ⟨fun hc => by simp [clipTo_of_le _ hc], rfl⟩
+    · exact ⟨fun hc => by simp [clipTo_of_le _ hc], rfl⟩
 
 theorem processStmt_buf (d : Dev) (a : Action) (o : Oracle) (now : Time) : BufFrame d (processStmt d a o now) := by
   unfold processStmt
   dsimp only
   split
-  · exact ⟨by simp [sentBytes, sentsOf], rfl⟩
+  · exact ⟨fun hc => by simp [sentBytes, sentsOf, clipTo_of_le _ hc], rfl⟩
   all_goals first
     | exact stmtExpect_buf _ _ _ _
     | exact stmtSend_buf _ _ _ _ _
@@ -942,23 +947,26 @@ theorem processStmt_buf (d : Dev) (a : Action) (o : Oracle) (now : Time) : BufFr
     | exact stmtForeach_buf _ _ _ _ _ _
     | exact stmtIf_buf _ _ _ _ _ _
 
-/-- the interpreter appends to the output buffer exactly the bytes it reports as sent, in order -/
-theorem innerLoop_buf (now : Time) (fuel : Nat) (d : Dev) (a : Action) (o : Oracle) (acc : List Out) :
+/-- the interpreter queues in the output buffer exactly the bytes it reports as sent, in order (beyond 65536 bytes the oldest
+    queued bytes give way: `clipTo`) -/
+theorem innerLoop_buf (now : Time) (fuel : Nat) (d : Dev) (a : Action) (o : Oracle) (acc : List Out)
+    (hc : d.toBuf.length ≤ 65536) :
     ∃ new, (innerLoop now fuel d a o acc).out = acc ++ new ∧
-      (innerLoop now fuel d a o acc).dev.toBuf = d.toBuf ++ sentBytes new ∧
+      (innerLoop now fuel d a o acc).dev.toBuf = clipTo (d.toBuf ++ sentBytes new) ∧
       (innerLoop now fuel d a o acc).dev.retryCount = d.retryCount := by
   induction fuel generalizing d a o acc with
   | zero =>
     have hp := processStmt_buf d a o now
-    exact ⟨(processStmt d a o now).out, by simp [innerLoop], by simpa [innerLoop] using hp.toBuf, by simpa [innerLoop] using hp.retry⟩
+    exact ⟨(processStmt d a o now).out, by simp [innerLoop], by simpa [innerLoop] using hp.toBuf hc, by simpa [innerLoop] using hp.retry⟩
   | succ n ih =>
     unfold innerLoop; dsimp only
     have hp := processStmt_buf d a o now
     split
-    · obtain ⟨new, h1, h2, h3⟩ := ih (processStmt d a o now).dev (processStmt d a o now).act (processStmt d a o now).oracle (acc ++ (processStmt d a o now).out)
+    · have hc' : (processStmt d a o now).dev.toBuf.length ≤ 65536 := by rw [hp.toBuf hc]; exact clipTo_length_le _
+      obtain ⟨new, h1, h2, h3⟩ := ih (processStmt d a o now).dev (processStmt d a o now).act (processStmt d a o now).oracle (acc ++ (processStmt d a o now).out) hc'
       exact ⟨(processStmt d a o now).out ++ new, by rw [h1, List.append_assoc],
-        by rw [h2, hp.toBuf, sentBytes_append, List.append_assoc], by rw [h3, hp.retry]⟩
-    · exact ⟨(processStmt d a o now).out, rfl, hp.toBuf, hp.retry⟩
+        by rw [h2, hp.toBuf hc, clipTo_clipTo_append, sentBytes_append, List.append_assoc], by rw [h3, hp.retry]⟩
+    · exact ⟨(processStmt d a o now).out, rfl, hp.toBuf hc, hp.retry⟩
 
 theorem finishConnectOne_buf (c : CS) : (finishConnectOne c).1.dev.toBuf = c.dev.toBuf ∧
     (finishConnectOne c).1.dev.retryCount = c.dev.retryCount := by
@@ -1030,14 +1038,16 @@ theorem reconnectDev_idle (c : CS) (tmo : Option Time) (h : c.dev.conn = 0) :
   · rfl
 
 /-- how a piece of `_process_action` may change the output buffer of device `d`, reporting `bytes` as sent:
-    either it appended exactly these bytes (and neither the connection state nor the retry counter moved), or the
+    either it queued exactly these bytes behind what was queued — `clipTo`: the last 65536 bytes of the two together, the
+    capacity of `dev->to` — (and neither the connection state nor the retry counter moved), or the
     device was connected and went through `_disconnect` (the buffer is empty; visible as: no longer CONNECTED, or one
     more connect attempt counted) -/
 def BufStep (d : Dev) (bytes : Bytes) (d' : Dev) : Prop :=
-  (d'.toBuf = d.toBuf ++ bytes ∧ d'.conn = d.conn ∧ d'.retryCount = d.retryCount) ∨
+  (d'.toBuf = clipTo (d.toBuf ++ bytes) ∧ d'.conn = d.conn ∧ d'.retryCount = d.retryCount) ∨
   (d'.toBuf = [] ∧ d.conn = 2 ∧ (d'.conn ≠ 2 ∨ d'.retryCount = d.retryCount + 1))
 
-theorem failAll_buf (rest : List Action) (c : CS) (a : Action) (o : Oracle) (out : List Out) (tmo : Option Time) :
+theorem failAll_buf (rest : List Action) (c : CS) (a : Action) (o : Oracle) (out : List Out) (tmo : Option Time)
+    (hcap : c.dev.toBuf.length ≤ 65536) :
     BufStep c.dev [] (failAll rest c a o out tmo).1.dev := by
   unfold failAll
   dsimp only
@@ -1051,9 +1061,10 @@ theorem failAll_buf (rest : List Action) (c : CS) (a : Action) (o : Oracle) (out
     rcases this.2 with h | h
     · left; simp [h]
     · right; exact h
-  · left; exact ⟨by simp, rfl, rfl⟩
+  · left; exact ⟨by simp [clipTo_of_le _ hcap], rfl, rfl⟩
 
-theorem onTimeout_buf (rest : List Action) (c : CS) (a : Action) (o : Oracle) (out : List Out) (tmo : Option Time) :
+theorem onTimeout_buf (rest : List Action) (c : CS) (a : Action) (o : Oracle) (out : List Out) (tmo : Option Time)
+    (hcap : c.dev.toBuf.length ≤ 65536) :
     BufStep c.dev [] (onTimeout rest c a o out tmo).1.dev := by
   unfold onTimeout
   dsimp only
@@ -1061,12 +1072,12 @@ theorem onTimeout_buf (rest : List Action) (c : CS) (a : Action) (o : Oracle) (o
       (if (c.dev.conn != 2) = true then [Out.telemetry a.clientId (str "connect(dev): timeout")]
        else teleMem a.clientId "recv(dev): '" c.dev.fromBuf) else []) = tele
   split
-  · left; exact ⟨by simp, rfl, rfl⟩
-  · exact failAll_buf _ _ _ _ _ _
+  · left; exact ⟨by simp [clipTo_of_le _ hcap], rfl, rfl⟩
+  · exact failAll_buf _ _ _ _ _ _ hcap
 
 /-- `BufStep` for one iteration, with the extra fact that a flush ends the loop -/
 def BufStop (d : Dev) (bytes : Bytes) (s : PA × Bool) : Prop :=
-  (s.1.1.dev.toBuf = d.toBuf ++ bytes ∧ s.1.1.dev.conn = d.conn ∧ s.1.1.dev.retryCount = d.retryCount) ∨
+  (s.1.1.dev.toBuf = clipTo (d.toBuf ++ bytes) ∧ s.1.1.dev.conn = d.conn ∧ s.1.1.dev.retryCount = d.retryCount) ∨
   (s.2 = false ∧ s.1.1.dev.toBuf = [] ∧ d.conn = 2 ∧ (s.1.1.dev.conn ≠ 2 ∨ s.1.1.dev.retryCount = d.retryCount + 1))
 
 theorem BufStop.of_bufStep {d : Dev} {b : Bytes} {p : PA} (h : BufStep d b p.1.dev) : BufStop d b (p, false) := by
@@ -1074,12 +1085,13 @@ theorem BufStop.of_bufStep {d : Dev} {b : Bytes} {p : PA} (h : BufStep d b p.1.d
   · exact Or.inl h
   · exact Or.inr ⟨rfl, h⟩
 
-theorem onRunStep_buf (rest : List Action) (c : CS) (a : Action) (o : Oracle) (out : List Out) (tmo : Option Time) (left : Time) :
+theorem onRunStep_buf (rest : List Action) (c : CS) (a : Action) (o : Oracle) (out : List Out) (tmo : Option Time) (left : Time)
+    (hcap : c.dev.toBuf.length ≤ 65536) :
     BufStop c.dev (sentBytes (innerLoop c.env.now (loopBound a) { c.dev with wake := none } a o []).out)
       (onRunStep rest c a o out tmo left) := by
   unfold onRunStep
   dsimp only
-  obtain ⟨new, hn1, hn2, hn3⟩ := innerLoop_buf c.env.now (loopBound a) { c.dev with wake := none } a o []
+  obtain ⟨new, hn1, hn2, hn3⟩ := innerLoop_buf c.env.now (loopBound a) { c.dev with wake := none } a o [] hcap
   have hL := (innerLoop_link c.env.now (loopBound a) { c.dev with wake := none } a o []).1.conn
   generalize innerLoop c.env.now (loopBound a) { c.dev with wake := none } a o [] = r at *
   simp only [List.nil_append] at hn1
@@ -1093,9 +1105,10 @@ theorem onRunStep_buf (rest : List Action) (c : CS) (a : Action) (o : Oracle) (o
       · split
         · exact Or.inl ⟨hn2, hL, hn3⟩
         · exact Or.inl ⟨hn2, hL, hn3⟩
-      · rcases failAll_buf rest { c with dev := r.dev } r.act r.oracle (out ++ r.out) tmo with h | h
+      · have hcr : r.dev.toBuf.length ≤ 65536 := by rw [hn2]; exact clipTo_length_le _
+        rcases failAll_buf rest { c with dev := r.dev } r.act r.oracle (out ++ r.out) tmo hcr with h | h
         · left
-          exact ⟨by rw [h.1]; simpa using hn2, by rw [h.2.1]; exact hL, by rw [h.2.2]; exact hn3⟩
+          exact ⟨by rw [h.1]; simpa [clipTo_of_le _ hcr] using hn2, by rw [h.2.1]; exact hL, by rw [h.2.2]; exact hn3⟩
         · right
           refine ⟨rfl, h.1, by rw [← hL]; exact h.2.1, ?_⟩
           rcases h.2.2 with h3 | h3
@@ -1139,29 +1152,30 @@ theorem bodyStep_cases (c : CS) (o : Oracle) (out : List Out) (tmo : Option Time
 
 /-- one iteration: the buffer grows by exactly what the head of the queue sent, or the device was disconnected
     (and then the loop has ended) -/
-theorem bodyStep_buf (c : CS) (o : Oracle) (out : List Out) (tmo : Option Time) :
+theorem bodyStep_buf (c : CS) (o : Oracle) (out : List Out) (tmo : Option Time) (hcap : c.dev.toBuf.length ≤ 65536) :
     BufStop c.dev (sentBytes (spoken c o)) (bodyStep c o out tmo) := by
   rcases bodyStep_cases c o out tmo with ⟨h1, h2⟩ | ⟨a0, rest, _, h1, h2⟩ | ⟨a0, rest, left, _, h1, _, h2⟩ | ⟨a0, rest, left, _, h1, _, h2⟩
-  · rw [h2, spoken_none c o h1]; exact Or.inl ⟨by simp, rfl, rfl⟩
-  · rw [h2, spoken_none c o h1]; exact BufStop.of_bufStep (onTimeout_buf _ _ _ _ _ _)
-  · rw [h2, spoken_none c o h1]; exact Or.inl ⟨by simp, rfl, rfl⟩
-  · rw [h2, spoken_some c o _ h1]; exact onRunStep_buf ..
+  · rw [h2, spoken_none c o h1]; exact Or.inl ⟨by simp [clipTo_of_le _ hcap], rfl, rfl⟩
+  · rw [h2, spoken_none c o h1]; exact BufStop.of_bufStep (onTimeout_buf _ _ _ _ _ _ hcap)
+  · rw [h2, spoken_none c o h1]; exact Or.inl ⟨by simp [clipTo_of_le _ hcap], rfl, rfl⟩
+  · rw [h2, spoken_some c o _ h1]; exact onRunStep_buf _ _ _ _ _ _ _ hcap
 
 /-- the sends of a whole run, iteration by iteration -/
 def passSents (fuel : Nat) (c : CS) (o : Oracle) (out : List Out) (tmo : Option Time) : List Bytes :=
   (iterStates fuel c o out tmo).flatMap fun s => sentsOf (spoken s.1 s.2)
 
 /-- C10, output buffer, one run of `_process_action`: afterwards the buffer is the buffer before followed by the
-    payloads of this run's `send`s in order — unless the run took the error branch on a connected device, whose
-    `_disconnect` flushed the buffer (then it is empty, and nothing was sent after the flush) -/
-theorem processActionF_buf (fuel : Nat) (c : CS) (o : Oracle) (out : List Out) (tmo : Option Time) :
+    payloads of this run's `send`s in order (`clipTo`: the last 65536 bytes of that) — unless the run took the error branch
+    on a connected device, whose `_disconnect` flushed the buffer (then it is empty, and nothing was sent after the flush) -/
+theorem processActionF_buf (fuel : Nat) (c : CS) (o : Oracle) (out : List Out) (tmo : Option Time)
+    (hcap : c.dev.toBuf.length ≤ 65536) :
     BufStep c.dev (passSents fuel c o out tmo).flatten (processActionF fuel c o out tmo).1.dev := by
   induction fuel generalizing c o out tmo with
-  | zero => exact Or.inl ⟨by simp [passSents, iterStates, processActionF], rfl, rfl⟩
+  | zero => exact Or.inl ⟨by simp [passSents, iterStates, processActionF, clipTo_of_le _ hcap], rfl, rfl⟩
   | succ n ih =>
     rw [processActionF_succ]
     unfold passSents iterStates andThen
-    have hb := bodyStep_buf c o out tmo
+    have hb := bodyStep_buf c o out tmo hcap
     generalize bodyStep c o out tmo = s at *
     cases hs : s.2
     · simp only [Bool.false_eq_true, ↓reduceIte, List.flatMap_cons, List.flatMap_nil, List.append_nil]
@@ -1170,10 +1184,11 @@ theorem processActionF_buf (fuel : Nat) (c : CS) (o : Oracle) (out : List Out) (
       · exact Or.inr h.2
     · simp only [↓reduceIte, List.flatMap_cons, List.flatten_append]
       rcases hb with h | h
-      · rcases ih s.1.1 s.1.2.1 s.1.2.2.1 s.1.2.2.2 with h2 | h2
+      · have hcs : s.1.1.dev.toBuf.length ≤ 65536 := by rw [h.1]; exact clipTo_length_le _
+        rcases ih s.1.1 s.1.2.1 s.1.2.2.1 s.1.2.2.2 hcs with h2 | h2
         · left
           refine ⟨?_, h2.2.1.trans h.2.1, h2.2.2.trans h.2.2⟩
-          rw [h2.1, h.1, List.append_assoc]; rfl
+          rw [h2.1, h.1, clipTo_clipTo_append, List.append_assoc]; rfl
         · right
           exact ⟨h2.1, h.2.1 ▸ h2.2.1, by rw [← h.2.2]; exact h2.2.2⟩
       · rw [hs] at h; cases h.1
@@ -1188,7 +1203,7 @@ def telnetReplies (st : Nat) (cmd : UInt8) (bs : Bytes) : Bytes :=
       (st', cmd', kept ++ k, reply ++ r)) (st, cmd, [], [])).2.2.2
 
 theorem telnetFilter_toBuf (d : Dev) (bs : Bytes) :
-    (telnetFilter d bs).toBuf = d.toBuf ++ telnetReplies d.tstate d.tcmd bs := by
+    (telnetFilter d bs).toBuf = clipTo (d.toBuf ++ telnetReplies d.tstate d.tcmd bs) := by
   unfold telnetFilter telnetReplies
   generalize List.foldl _ _ bs = r
   obtain ⟨a, b, c, e⟩ := r
@@ -1196,42 +1211,48 @@ theorem telnetFilter_toBuf (d : Dev) (bs : Bytes) :
 
 /-- what `_handle_ready_device` does to the output buffer of `c`, giving `c'`: the buffer is what the write left
     (all of it, or what stays behind the non-empty prefix `wr` a successful `write` took) followed by the telnet option
-    replies to the bytes just read (tcp devices only; `readOf`: the prefix of what the kernel had that fits the request) -/
+    replies to the bytes just read (tcp devices only; `readOf`: the prefix of what the kernel had that fits the request) —
+    `clipTo`: the last 65536 bytes of that, the capacity of `dev->to` -/
 def ReadyBuf (c c' : CS) : Prop :=
-  ∃ kept reply, c'.dev.toBuf = kept ++ reply ∧
+  ∃ kept reply, c'.dev.toBuf = clipTo (kept ++ reply) ∧
     (kept = c.dev.toBuf ∨ (∃ wr, wr ≠ [] ∧ wr ++ kept = c.dev.toBuf ∧ Sys.write wr true ∈ c'.sys)) ∧
     (reply = [] ∨ ∃ bs, c.env.read = some (some bs) ∧ c.dev.isPipe = false ∧
       reply = telnetReplies c.dev.tstate c.dev.tcmd (readOf c.dev bs))
 
-theorem ReadyBuf.same {c c' : CS} (h : c'.dev.toBuf = c.dev.toBuf) : ReadyBuf c c' :=
-  ⟨c.dev.toBuf, [], by simp [h], Or.inl rfl, Or.inl rfl⟩
+theorem ReadyBuf.same {c c' : CS} (h : c'.dev.toBuf = c.dev.toBuf) (hcap : c.dev.toBuf.length ≤ 65536) : ReadyBuf c c' :=
+  ⟨c.dev.toBuf, [], by simp [h, clipTo_of_le _ hcap], Or.inl rfl, Or.inl rfl⟩
 
-theorem readyRead_buf (c : CS) :
+theorem readyRead_buf (c : CS) (hcap : c.dev.toBuf.length ≤ 65536) :
     (∀ x ∈ c.sys, x ∈ (readyRead c).1.sys) ∧
-    ∃ reply, (readyRead c).1.dev.toBuf = c.dev.toBuf ++ reply ∧
+    ∃ reply, (readyRead c).1.dev.toBuf = clipTo (c.dev.toBuf ++ reply) ∧
       (reply = [] ∨ ∃ bs, c.env.read = some (some bs) ∧ c.dev.isPipe = false ∧ reply = telnetReplies c.dev.tstate c.dev.tcmd bs) := by
   unfold readyRead
   split
   · rename_i bs hbs
     split
-    · exact ⟨fun x hx => by simp [hx], [], by simp, Or.inl rfl⟩
+    · exact ⟨fun x hx => by simp [hx], [], by simp [clipTo_of_le _ hcap], Or.inl rfl⟩
     · by_cases hp : c.dev.isPipe = true
-      · exact ⟨fun x hx => by simp [hx], [], by simp [hp], Or.inl rfl⟩
+      · exact ⟨fun x hx => by simp [hx], [], by simp [hp, clipTo_of_le _ hcap], Or.inl rfl⟩
       · refine ⟨fun x hx => by simp [hx], telnetReplies c.dev.tstate c.dev.tcmd bs, ?_, Or.inr ⟨bs, hbs, by simpa using hp, rfl⟩⟩
         simp [hp, telnetFilter_toBuf]
-  · exact ⟨fun x hx => by simp [hx], [], by simp, Or.inl rfl⟩
-  · exact ⟨fun x hx => by simp [hx], [], by simp, Or.inl rfl⟩
+  · exact ⟨fun x hx => by simp [hx], [], by simp [clipTo_of_le _ hcap], Or.inl rfl⟩
+  · exact ⟨fun x hx => by simp [hx], [], by simp [clipTo_of_le _ hcap], Or.inl rfl⟩
 
 theorem readyTail_buf (f : Nat) (r : CS × Bool × Bool) (c : CS)
     (hk : r.1.dev.toBuf = c.dev.toBuf ∨ (∃ wr, wr ≠ [] ∧ wr ++ r.1.dev.toBuf = c.dev.toBuf ∧ Sys.write wr true ∈ r.1.sys))
     (hf : r.2.2 = false → r.1.env.read = c.env.read ∧ r.1.dev.isPipe = c.dev.isPipe ∧
       r.1.dev.tstate = c.dev.tstate ∧ r.1.dev.tcmd = c.dev.tcmd ∧ r.1.dev.fromBuf = c.dev.fromBuf ∧
-      r.1.dev.fromSize = c.dev.fromSize) :
+      r.1.dev.fromSize = c.dev.fromSize)
+    (hcap : c.dev.toBuf.length ≤ 65536) :
     ReadyBuf c (readyTail f r).1 := by
+  have hcr : r.1.dev.toBuf.length ≤ 65536 := by
+    rcases hk with h | ⟨wr, _, h, _⟩
+    · rw [h]; exact hcap
+    · rw [← h, List.length_append] at hcap; exact Nat.le_trans (Nat.le_add_left _ _) hcap
   have base : ReadyBuf c r.1 := by
     rcases hk with h | ⟨wr, h⟩
-    · exact ReadyBuf.same h
-    · exact ⟨r.1.dev.toBuf, [], by simp, Or.inr ⟨wr, h⟩, Or.inl rfl⟩
+    · exact ReadyBuf.same h hcap
+    · exact ⟨r.1.dev.toBuf, [], by simp [clipTo_of_le _ hcr], Or.inr ⟨wr, h⟩, Or.inl rfl⟩
   unfold readyTail
   split
   · exact base
@@ -1239,7 +1260,7 @@ theorem readyTail_buf (f : Nat) (r : CS × Bool × Bool) (c : CS)
     · exact base
     · rename_i hskip
       split
-      · obtain ⟨hsys, reply, h1, h2⟩ := readyRead_buf (clipRead r.1)
+      · obtain ⟨hsys, reply, h1, h2⟩ := readyRead_buf (clipRead r.1) (by rw [clipRead_toBuf]; exact hcr)
         obtain ⟨e1, e2, e3, e4, e5, e6⟩ := hf (by simpa using hskip)
         simp only [clipRead_sys, clipRead_toBuf, clipRead_isPipe, clipRead_tstate, clipRead_tcmd] at hsys h1 h2
         have h2' : reply = [] ∨ ∃ bs, c.env.read = some (some bs) ∧ c.dev.isPipe = false ∧
@@ -1298,16 +1319,16 @@ theorem readyWrite_buf (c : CS) :
     · exact ⟨Or.inl rfl, rfl, rfl, rfl, rfl, rfl, rfl⟩
 
 /-- C10, output buffer, `_handle_ready_device` -/
-theorem handleReady_buf (c : CS) : ReadyBuf c (handleReady c).1 := by
+theorem handleReady_buf (c : CS) (hcap : c.dev.toBuf.length ≤ 65536) : ReadyBuf c (handleReady c).1 := by
   rw [handleReady_eq]; unfold handleReady'
   dsimp only
   split
-  · exact ReadyBuf.same rfl
+  · exact ReadyBuf.same rfl hcap
   · split
-    · exact ReadyBuf.same rfl
+    · exact ReadyBuf.same rfl hcap
     · split
-      · exact ReadyBuf.same rfl
-      · apply readyTail_buf
+      · exact ReadyBuf.same rfl hcap
+      · apply readyTail_buf (hcap := hcap)
         · split
           · split
             · exact Or.inl (readyConnect_toBuf c).1
@@ -1321,12 +1342,13 @@ theorem handleReady_buf (c : CS) : ReadyBuf c (handleReady c).1 := by
               exact ⟨by rw [e1], e2, e3, e4, e5, e6⟩
           · intro _; exact ⟨rfl, rfl, rfl, rfl, rfl, rfl⟩
 
-theorem postPollReady_buf (d : Dev) (env : Env) : ReadyBuf { dev := d, env := env, sys := [] } (postPollReady d env).1 := by
+theorem postPollReady_buf (d : Dev) (env : Env) (hcap : d.toBuf.length ≤ 65536) :
+    ReadyBuf { dev := d, env := env, sys := [] } (postPollReady d env).1 := by
   unfold postPollReady
   generalize (if d.fd.isSome then env.revents else 0) = fl
   split
-  · exact handleReady_buf { dev := d, env := { env with revents := fl }, sys := [] }
-  · exact ReadyBuf.same rfl
+  · exact handleReady_buf { dev := d, env := { env with revents := fl }, sys := [] } hcap
+  · exact ReadyBuf.same rfl hcap
 
 theorem postPollPing_buf (now : Time) (r : CS × Option Time) :
     (postPollPing now r).1.dev.toBuf = r.1.dev.toBuf := by
@@ -1361,25 +1383,30 @@ theorem postPollPre_buf (d : Dev) (env : Env) :
     had that the buffer asked for).  Afterwards the buffer is
     `kept ++ reply ++` the payloads of this pass's `send` statements in order; or, if an i/o error made the pass
     disconnect before `_process_action`, just those payloads; or, if `_process_action` took its error branch on the
-    connected device (which disconnects, and ends the pass's sending), empty. -/
-theorem postPoll_buf (d : Dev) (env : Env) (o : Oracle) :
+    connected device (which disconnects, and ends the pass's sending), empty.
+    `clipTo`: `dev->to` holds 65536 bytes; of more than that the oldest give way (`cbuf_write` overwrites). -/
+theorem postPoll_buf (d : Dev) (env : Env) (o : Oracle) (hcap : d.toBuf.length ≤ 65536) :
     ∃ kept reply,
       (kept = d.toBuf ∨ (∃ wr, wr ≠ [] ∧ wr ++ kept = d.toBuf ∧ Sys.write wr true ∈ (postPollReady d env).1.sys)) ∧
       (reply = [] ∨ ∃ bs, env.read = some (some bs) ∧ d.isPipe = false ∧
         reply = telnetReplies d.tstate d.tcmd (readOf d bs)) ∧
-      ((postPoll d env o).1.dev.toBuf = kept ++ reply ++ sentBytes (postPoll d env o).2.2.1 ∨
-       ((postPoll d env o).1.dev.toBuf = sentBytes (postPoll d env o).2.2.1 ∧
+      ((postPoll d env o).1.dev.toBuf = clipTo (kept ++ reply ++ sentBytes (postPoll d env o).2.2.1) ∨
+       ((postPoll d env o).1.dev.toBuf = clipTo (sentBytes (postPoll d env o).2.2.1) ∧
           (postPollReady d env).2 = true ∧ (postPollReady d env).1.dev.conn ≠ 0) ∨
        ((postPoll d env o).1.dev.toBuf = [] ∧ (postPollPre d env).1.dev.conn = 2 ∧
           ((postPoll d env o).1.dev.conn ≠ 2 ∨
            (postPoll d env o).1.dev.retryCount = (postPollPre d env).1.dev.retryCount + 1))) := by
-  obtain ⟨kept, reply, h1, h2, h3⟩ := postPollReady_buf d env
+  obtain ⟨kept, reply, h1, h2, h3⟩ := postPollReady_buf d env hcap
   refine ⟨kept, reply, h2, h3, ?_⟩
   rw [postPoll_eq]; unfold postPoll'
   split
   · left; simpa using h1
   · unfold processAction
-    have hb := processActionF_buf (passFuel (postPollPre d env).1.dev) (postPollPre d env).1 o [] (postPollPre d env).2
+    have hcp : (postPollPre d env).1.dev.toBuf.length ≤ 65536 := by
+      rcases postPollPre_buf d env with hp | hp
+      · rw [hp, h1]; exact clipTo_length_le _
+      · rw [hp.1]; exact Nat.zero_le _
+    have hb := processActionF_buf (passFuel (postPollPre d env).1.dev) (postPollPre d env).1 o [] (postPollPre d env).2 hcp
     have hs := processActionF_sents (passFuel (postPollPre d env).1.dev) (postPollPre d env).1 o [] (postPollPre d env).2
     have hs' : sentBytes (processActionF (passFuel (postPollPre d env).1.dev) (postPollPre d env).1 o [] (postPollPre d env).2).2.2.1
         = (passSents (passFuel (postPollPre d env).1.dev) (postPollPre d env).1 o [] (postPollPre d env).2).flatten := by
@@ -1387,7 +1414,7 @@ theorem postPoll_buf (d : Dev) (env : Env) (o : Oracle) :
     rw [hs']
     rcases hb with hb | hb
     · rcases postPollPre_buf d env with hp | hp
-      · left; rw [hb.1, hp, h1]
+      · left; rw [hb.1, hp, h1, clipTo_clipTo_append]
       · right; left; exact ⟨by rw [hb.1, hp.1]; simp, hp.2⟩
     · right; right; exact hb
 
